@@ -87,7 +87,9 @@ INVOKES: List[Any] = [
     {"src": "fetchData", "id": "fetchData", "onDone": {"target": "c", "guard": {"type": "isOk", "params": {"lvl": 2}}}},
 ]
 HOSTILE = [None, 'we"ird', 'x"""\nimport builtins; builtins.C17_CANARY = 1\n"""', "line\nbreak", "back\\slash", "class", "my-state|my_state",
-           "сост", "'); import builtins; builtins.C17_CANARY = 1; ('"]
+           "сост", "'); import builtins; builtins.C17_CANARY = 1; ('",
+           # a backslash right before the quote: naive quote-escaping turns \" into \\" and the literal ends there
+           'q\\"+str(setattr(__import__("builtins"),"C17_CANARY",1))+"', "q\\'+str(setattr(__import__('builtins'),'C17_CANARY',1))+'"]
 POSITIONS = ["id", "state", "action", "guard", "service"]
 UNSUPPORTED = [None, ("top", "output", {"r": 1}), ("nested", "output", {"r": 1}), ("deep", "activities", ["beep"])]
 _MAIN: Dict[str, Any] = {}
@@ -460,6 +462,7 @@ def corpus() -> List[Tuple[str, Dict[str, Any], bool]]:
             return a, g, sv
 
         c = []
+        logging.disable(logging.CRITICAL)
         for f in sorted(glob.glob(os.path.join(CORPUS_DIR, "*.json"))):
             with open(f, encoding="utf-8") as fh:
                 cfg = json.load(fh)
